@@ -39,7 +39,7 @@ LEVELS["C15"] = {
     "text": "Bounded symbolic model checking of the calendar code (klog.Date on top of civil/time from the Go standard library, executed from SSA): for every date of each "
             "century window the weekday, ISO week and week-year, quarter, day stepping, the four kinds of periods and their predecessors are proven equal to "
             "independent closed-form references; bucket hashes are proven injective on their fields for the full value range in single queries; every pattern "
-            "string is accepted iff it denotes an existing period. The thorough tier covers nine century windows (a full 400-year cycle at each end of the range and 2000-2099).",
+            "string is accepted iff it denotes an existing period. The windows are decades around the ends of the range, the 400-year rule, 1900, 2000 and further century years.",
     "note": BASE_NOTE + " Month and day are case-split by the engine; per (month, day) the year is symbolic over its window and the standard library's "
             "Neri-Schneider arithmetic is tabulated exactly over the year.",
 }
